@@ -1209,6 +1209,10 @@ fn create_mutation_attempts(names: &Names, keys: &Keys) -> u64 {
 const HIST_DBS: [&str; 3] = ["hist_alpha", "hist_zebra_zq", "hist_cedar"];
 const HIST_PRIMARY: &str = "hist_prim";
 const HIST_ADMIN: &str = "adm-hist-0f3e7a";
+/// Long-key histories: every key of the history (admin, tenants, rotations, the garbage token)
+/// is derived as `<one shared prefix of 96 bytes><role suffix>`, the way an operator derives
+/// tenant keys from one master secret; the keys differ only behind the prefix.
+const HIST_LONG_PREFIX: &str = "hk-master-9f27c4d1e8b35a60-9f27c4d1e8b35a60-9f27c4d1e8b35a60-9f27c4d1e8b35a60-9f27c4d1e8b35a60:::";
 
 #[derive(Clone, Debug, PartialEq)]
 enum HOp {
@@ -1222,11 +1226,15 @@ enum HOp {
     AddDoc(usize),
     Restart,
     CrashRestart,
+    /// the wrapped key operation (keyed Create, SetKey, RemoveKey) with ONE transient backend
+    /// error: the n-th mutation attempt of the request fails before landing
+    Faulty(Box<HOp>, u64),
 }
 
 impl HOp {
     fn db(&self) -> Option<usize> {
         match self {
+            HOp::Faulty(inner, _) => inner.db(),
             HOp::Create(d, _) | HOp::Close(d) | HOp::Open(d) | HOp::Connect(d) | HOp::SetKey(d)
             | HOp::SetKeyGenerated(d) | HOp::RemoveKey(d) | HOp::AddDoc(d) => Some(*d),
             _ => None,
@@ -1254,9 +1262,21 @@ fn gen_history(rng: &mut Rng, len: usize) -> Vec<HOp> {
         m.exists.insert(d);
         m.open.insert(d);
     }
+    // A request that failed on a backend error has an indeterminate durable outcome until the next
+    // successful metadata flush (its first write may have landed before a later one failed): no
+    // power loss is generated between a faulted request and the next clean restart.
+    let mut fault_dirty = false;
     while ops.len() < len {
         let d = rng.usize(3);
-        let op = match rng.weighted(&[8, 10, 10, 6, 16, 5, 12, 8, 6, 8]) {
+        let op = match rng.weighted(&[8, 10, 10, 6, 16, 5, 12, 8, 6, 8, 12]) {
+            10 => {
+                let inner = match rng.weighted(&[5, 4, 2]) {
+                    0 => HOp::Create(d, true),
+                    1 => HOp::SetKey(d),
+                    _ => HOp::RemoveKey(d),
+                };
+                HOp::Faulty(Box::new(inner), rng.below(5))
+            }
             0 => HOp::Create(d, rng.chance(2, 3)),
             1 => HOp::Close(d),
             2 => HOp::Open(d),
@@ -1266,10 +1286,20 @@ fn gen_history(rng: &mut Rng, len: usize) -> Vec<HOp> {
             6 => HOp::RemoveKey(d),
             7 => HOp::AddDoc(d),
             8 => HOp::Restart,
+            _ if fault_dirty => HOp::Restart,
             _ => HOp::CrashRestart,
         };
+        match &op {
+            HOp::Faulty(..) => fault_dirty = true,
+            HOp::Restart => fault_dirty = false,
+            _ => {}
+        }
         // keep mostly valid operations
-        let valid = match &op {
+        let judged = match &op {
+            HOp::Faulty(inner, _) => (**inner).clone(),
+            o => o.clone(),
+        };
+        let valid = match &judged {
             HOp::Create(d, _) => !m.exists.contains(d),
             HOp::Close(d) | HOp::SetKey(d) | HOp::SetKeyGenerated(d) | HOp::RemoveKey(d) | HOp::AddDoc(d) => m.open.contains(d),
             HOp::Open(d) => m.exists.contains(d) && !m.open.contains(d),
@@ -1278,7 +1308,26 @@ fn gen_history(rng: &mut Rng, len: usize) -> Vec<HOp> {
         if !valid && !rng.chance(1, 6) {
             continue;
         }
-        if valid {
+        if valid && matches!(op, HOp::Faulty(..)) {
+            // the operator's reaction to a failed keyed creation: bring the database up without a
+            // key (or give up), and sooner or later the server restarts
+            if let HOp::Faulty(inner, _) = &op {
+                if let HOp::Create(d, _) = **inner {
+                    ops.push(op.clone());
+                    if rng.chance(3, 4) {
+                        ops.push(if rng.bool() { HOp::Connect(d) } else { HOp::Create(d, false) });
+                        m.exists.insert(d);
+                        m.open.insert(d);
+                    }
+                    if rng.chance(1, 2) {
+                        ops.push(HOp::Restart);
+                        fault_dirty = false;
+                    }
+                    continue;
+                }
+            }
+        }
+        if valid && !matches!(op, HOp::Faulty(..)) {
             match &op {
                 HOp::Create(d, _) | HOp::Connect(d) | HOp::Open(d) => {
                     m.exists.insert(*d);
@@ -1311,27 +1360,35 @@ struct HWorld {
     app: axum::Router,
     model: HModel,
     key_counter: u64,
+    long_keys: bool,
 }
 
 impl HWorld {
-    async fn new(variant: Variant) -> HWorld {
+    async fn new(variant: Variant, long_keys: bool) -> HWorld {
         let rec = RecStore::new();
         rec.set_record_reads(false);
-        let state = AppState::connect(rec.as_dyn(), server_options(HIST_PRIMARY, Some(HIST_ADMIN.into())))
-            .await
-            .expect("AppState::connect");
-        let app = build_router(state.clone());
-        HWorld { variant, rec, state, app, model: HModel::default(), key_counter: 0 }
+        let mut w = HWorld { variant, rec: rec.clone(), state: AppState::connect(rec.as_dyn(), server_options(HIST_PRIMARY, Some(hist_admin_key(long_keys)))).await.expect("AppState::connect"), app: axum::Router::new(), model: HModel::default(), key_counter: 0, long_keys };
+        w.app = build_router(w.state.clone());
+        w
+    }
+
+    fn admin_key(&self) -> String {
+        hist_admin_key(self.long_keys)
+    }
+
+    fn garbage_key(&self) -> String {
+        if self.long_keys { format!("{HIST_LONG_PREFIX}garbage-00") } else { "hk-garbage-00".into() }
     }
 
     async fn admin(&self, path: &str, method: &str, params: Value) -> Result<Resp, String> {
-        send(&self.app, &Req { path: path.into(), auth: Some(bearer(HIST_ADMIN)), enc: Enc::Cbor, method: method.into(), params }).await
+        send(&self.app, &Req { path: path.into(), auth: Some(bearer(&self.admin_key())), enc: Enc::Cbor, method: method.into(), params }).await
     }
 
     fn next_key(&mut self, d: usize) -> String {
         self.key_counter += 1;
         let alt = if self.variant == Variant::BRekeyed && d == 1 { "-other" } else { "" };
-        format!("hk-{d}-{}-7e1f{alt}", self.key_counter)
+        let pre = if self.long_keys { HIST_LONG_PREFIX } else { "" };
+        format!("{pre}hk-{d}-{}-7e1f{alt}", self.key_counter)
     }
 
     async fn restart(&mut self, crash: bool) {
@@ -1343,7 +1400,7 @@ impl HWorld {
             self.state.shutdown().await;
             self.rec.clone()
         };
-        let state = AppState::connect(rec.as_dyn(), server_options(HIST_PRIMARY, Some(HIST_ADMIN.into())))
+        let state = AppState::connect(rec.as_dyn(), server_options(HIST_PRIMARY, Some(self.admin_key())))
             .await
             .expect("AppState::connect (restart)");
         self.app = build_router(state.clone());
@@ -1356,7 +1413,15 @@ impl HWorld {
         // keep key numbering aligned across variants even when the operation is dropped
         let dropped = self.variant == Variant::BAbsent && op.db() == Some(1);
         let name = |d: usize| HIST_DBS[d].to_string();
+        let (op, fault) = match op {
+            HOp::Faulty(inner, n) => (&**inner, Some(*n)),
+            o => (o, None),
+        };
+        if let (Some(n), false) = (fault, dropped) {
+            self.rec.set_fault(Fault::FailBefore(self.rec.attempts() + n));
+        }
         let status = match op {
+            HOp::Faulty(..) => return Err("nested Faulty".into()),
             HOp::Create(d, keyed) => {
                 let key = keyed.then(|| self.next_key(*d));
                 if dropped {
@@ -1374,6 +1439,11 @@ impl HWorld {
                         self.model.binding.insert(*d, k.clone());
                         self.model.issued.insert(step, (*d, k));
                     }
+                } else if let Some(k) = key {
+                    // the key of a creation that was refused or failed (and was unwound) is no
+                    // credential: tracked as issued, bound to nothing
+                    self.model.issued.insert(step, (*d, k));
+                    st.count("hist_failed_request_keys_tracked");
                 }
                 r.status
             }
@@ -1408,6 +1478,10 @@ impl HWorld {
                 if r.status == 200 {
                     self.model.binding.insert(*d, key.clone());
                     self.model.issued.insert(step, (*d, key));
+                } else {
+                    // a rotation that failed binds nothing: the previous binding stays
+                    self.model.issued.insert(step, (*d, key));
+                    st.count("hist_failed_request_keys_tracked");
                 }
                 r.status
             }
@@ -1461,6 +1535,15 @@ impl HWorld {
                 200
             }
         };
+        if fault.is_some() {
+            if self.rec.fault_fired() {
+                st.count("hist_fault_fired");
+                if status != 200 {
+                    st.count("hist_faulted_request_failed");
+                }
+            }
+            self.rec.reset_faults();
+        }
         Ok(status)
     }
 }
@@ -1484,13 +1567,19 @@ enum ProbeWho {
     Issued(usize),
 }
 
+fn hist_admin_key(long_keys: bool) -> String {
+    if long_keys { format!("{HIST_LONG_PREFIX}admin-0f3e7a") } else { HIST_ADMIN.into() }
+}
+
 async fn hist_case(case: u64, rng: &mut Rng, st: &mut Stats, len: usize) -> Result<(), String> {
     let ops = gen_history(rng, len);
+    let long_keys = case % 2 == 1;
     let mut worlds = vec![
-        HWorld::new(Variant::Full).await,
-        HWorld::new(Variant::BRekeyed).await,
-        HWorld::new(Variant::BAbsent).await,
+        HWorld::new(Variant::Full, long_keys).await,
+        HWorld::new(Variant::BRekeyed, long_keys).await,
+        HWorld::new(Variant::BAbsent, long_keys).await,
     ];
+    st.count(if long_keys { "hist_cases_long_keys" } else { "hist_cases_short_keys" });
     let mut canon: BTreeMap<u8, Resp> = BTreeMap::new();
     for enc in [Enc::Cbor, Enc::Json] {
         let r = send(&worlds[0].app, &Req { path: "/".into(), auth: None, enc, method: "info".into(), params: json!({}) }).await?;
@@ -1501,6 +1590,7 @@ async fn hist_case(case: u64, rng: &mut Rng, st: &mut Stats, len: usize) -> Resu
     }
     let mut kinds = BTreeSet::new();
     let mut trace: Vec<String> = vec![];
+    let mut tainted: BTreeSet<usize> = BTreeSet::new();
     for (step, op) in ops.iter().enumerate() {
         let kind = format!("{op:?}").split('(').next().unwrap_or("").to_string();
         st.count(&format!("hist_op:{kind}"));
@@ -1510,9 +1600,34 @@ async fn hist_case(case: u64, rng: &mut Rng, st: &mut Stats, len: usize) -> Resu
             statuses.push(w.apply(op, step, st).await?);
         }
         trace.push(format!("{op:?} -> {statuses:?}"));
+        // A `db.create` that failed on a backend error is unwound in memory, but whether the
+        // database is registered after later restarts depends on which metadata flush comes next
+        // (lifecycle, decided by the admin's own requests; no subject of this property): from here
+        // on the live set of such a database is OBSERVED per world, and requests that depend on
+        // it are not compared across worlds.
+        if let HOp::Faulty(inner, _) = op {
+            if let (HOp::Create(d, _), true) = (&**inner, statuses.iter().any(|s| *s != 200 && *s != 0)) {
+                if tainted.insert(*d) {
+                    st.count("hist_lifecycle_observed_after_failed_create");
+                }
+            }
+        }
+        if !tainted.is_empty() {
+            for w in worlds.iter_mut() {
+                let names = w.state.db_names().await;
+                for d in &tainted {
+                    if names.iter().any(|n| n == HIST_DBS[*d]) {
+                        w.model.open.insert(*d);
+                    } else {
+                        w.model.open.remove(d);
+                    }
+                }
+            }
+        }
+        let lifecycle_observed = |d: Option<usize>| d.map(|d| tainted.contains(&d)).unwrap_or(false);
         // operations that do not concern B must be answered alike in every variant
-        if op.db() != Some(1) && (statuses[1] != statuses[0] || statuses[2] != statuses[0]) {
-            st.inconclusive(format!("hist: admin operation {op:?} answered differently across variants {statuses:?}"));
+        if op.db() != Some(1) && !lifecycle_observed(op.db()) && (statuses[1] != statuses[0] || statuses[2] != statuses[0]) {
+            st.inconclusive(format!("hist: admin operation {op:?} answered differently across variants {statuses:?}; history {trace:?}"));
             break;
         }
         // probes
@@ -1541,8 +1656,8 @@ async fn hist_case(case: u64, rng: &mut Rng, st: &mut Stats, len: usize) -> Resu
                 // the holder of an issued key: in the B-absent variant keys of B were never issued
                 let (token, holder_db): (Option<String>, Option<usize>) = match &pr.who {
                     ProbeWho::None => (None, None),
-                    ProbeWho::Garbage => (Some("hk-garbage-00".into()), None),
-                    ProbeWho::Admin => (Some(HIST_ADMIN.into()), None),
+                    ProbeWho::Garbage => (Some(w.garbage_key()), None),
+                    ProbeWho::Admin => (Some(w.admin_key()), None),
                     // the key issued by that history step in this variant (absent when the step
                     // was dropped here: keys of B in the B-absent variant)
                     ProbeWho::Issued(slot) => match w.model.issued.get(slot) {
@@ -1615,7 +1730,7 @@ async fn hist_case(case: u64, rng: &mut Rng, st: &mut Stats, len: usize) -> Resu
                             "hist: the key the documented rules keep bound is rejected after {op:?} (model out of sync)"
                         ));
                     } else if r.status != want {
-                        st.inconclusive(format!("hist: accepted probe answered {} (model expects {want}) for {op:?}", r.status));
+                        st.inconclusive(format!("hist: accepted probe answered {} (model expects {want}) for {op:?}; history {trace:?}", r.status));
                     }
                     if !pr.mutating && !landed.is_empty() {
                         viol(st, format!("C14/read_wrote/{method}"), detail("a Read-labelled method wrote to storage"));
@@ -1644,7 +1759,9 @@ async fn hist_case(case: u64, rng: &mut Rng, st: &mut Stats, len: usize) -> Resu
             // relational: a caller that holds no key of B sees the same answers whatever B is
             let holder_of_b = matches!(&pr.who, ProbeWho::Issued(i) if worlds[0].model.issued[i].0 == 1);
             let own_db = matches!((&pr.who, pr.target), (ProbeWho::Issued(i), Some(t)) if worlds[0].model.issued[i].0 == t);
-            if pr.who != ProbeWho::Admin && !holder_of_b {
+            // the holder of a key of a database whose live set is observed per world (see above)
+            let own_observed = own_db && lifecycle_observed(pr.target);
+            if pr.who != ProbeWho::Admin && !holder_of_b && !own_observed {
                 if let Some(Some(base)) = answers.first() {
                     st.count("hist_relational_tuples");
                     for (vi, a) in answers.iter().enumerate().skip(1) {
@@ -2041,7 +2158,11 @@ fn main() {
     run.floor("hist_expected_accept", 2_000);
     run.floor("hist_revoked_key_on_own_db", 300);
     run.floor("hist_relational_tuples", 5_000);
-    for op in ["Create", "Close", "Open", "Connect", "SetKey", "SetKeyGenerated", "RemoveKey", "AddDoc", "Restart", "CrashRestart"] {
+    run.floor("hist_cases_long_keys", 40);
+    run.floor("hist_cases_short_keys", 40);
+    run.floor("hist_faulted_request_failed", 60);
+    run.floor("hist_failed_request_keys_tracked", 60);
+    for op in ["Create", "Close", "Open", "Connect", "SetKey", "SetKeyGenerated", "RemoveKey", "AddDoc", "Restart", "CrashRestart", "Faulty"] {
         run.floor(&format!("hist_op:{op}"), 20);
     }
     run.floor("guard_binding_attempts", 7);
